@@ -11,6 +11,13 @@ import (
 	"time"
 
 	"cosmossdk.io/collections"
+	"cosmossdk.io/math"
+
+	sdk "github.com/cosmos/cosmos-sdk/types"
+	stakingtypes "github.com/cosmos/cosmos-sdk/x/staking/types"
+	minttypes "github.com/tellor-io/layer/x/mint/types"
+	oracletypes "github.com/tellor-io/layer/x/oracle/types"
+	reportertypes "github.com/tellor-io/layer/x/reporter/types"
 )
 
 var histDebug = false
@@ -171,5 +178,154 @@ func TestHistDebug(t *testing.T) {
 	for _, v := range vals {
 		evm, err := w.s.Bridgekeeper.OperatorToEVMAddressMap.Get(w.ctx, v.GetOperator())
 		fmt.Println("validator", v.GetOperator(), v.Status, v.Tokens, "jailed", v.Jailed, "evm", evm.EVMAddress, err)
+	}
+}
+
+// runPayoutHistory: a history directed at the reward paths (C04/C09): 3-5 reporters with equal or
+// 3:3:1-style powers, selectors joining them, tips whose amounts do not divide by the number of
+// reporters, every reporter reporting the tipped / scheduled query, time based rewards running, and tip
+// withdrawals by every party, through the real message servers and Begin/EndBlockers.
+func runPayoutHistory(t *testing.T, seed int64, blocks int) (string, map[string]int, string) {
+	r := rand.New(rand.NewSource(seed))
+	nVals := 3 + r.Intn(3)
+	w := newWorld(t, r, nVals, 3)
+	lastWorld = w
+	stats := map[string]int{}
+	var steps []string
+	do := func(name string, signer int, params []*big.Int, f func(ctx sdk.Context) error) opResult {
+		res := w.deliver(name, signer, params, f)
+		steps = append(steps, coqStep(res, w.snap(), nil))
+		stats[fmt.Sprintf("%s/%d", res.name, res.result)]++
+		return res
+	}
+	// every validator account becomes a reporter (newWorld made the first two)
+	for i := 2; i < nVals; i++ {
+		i := i
+		rate := pick(r, math.LegacyZeroDec(), math.LegacyNewDecWithPrec(1, 1), math.LegacyNewDecWithPrec(5, 1))
+		if _, err := w.reporterMS.CreateReporter(w.ctx, &reportertypes.MsgCreateReporter{ReporterAddress: w.accts[i].String(), CommissionRate: rate, MinTokensRequired: math.NewInt(loyaPerTRB)}); err != nil {
+			t.Fatal(err)
+		}
+		w.reporters[i] = true
+	}
+	// power profile: equal, or one reporter with extra stake (3:3:1-like ratios arise from the extra)
+	if r.Intn(2) == 0 {
+		extra := pick(r, bi(2500*loyaPerTRB), bi(5000*loyaPerTRB), bi(1*loyaPerTRB), bi(10000*loyaPerTRB))
+		who := r.Intn(nVals)
+		w.s.MintTokens(w.accts[who], math.NewIntFromBigInt(extra))
+		_, _ = w.stakingMS.Delegate(w.ctx, &stakingtypes.MsgDelegate{DelegatorAddress: w.accts[who].String(), ValidatorAddress: w.valOps[who].String(), Amount: w.coin(extra)})
+	}
+	// plain accounts delegate and select a reporter
+	for k := 0; k < 3; k++ {
+		a := nVals + k
+		v := r.Intn(nVals)
+		amt := pick(r, bi(1*loyaPerTRB), bi(333*loyaPerTRB), bi(1000*loyaPerTRB), bi(1234567))
+		_, _ = w.stakingMS.Delegate(w.ctx, &stakingtypes.MsgDelegate{DelegatorAddress: w.accts[a].String(), ValidatorAddress: w.valOps[v].String(), Amount: w.coin(amt)})
+		rep := r.Intn(nVals)
+		_, _ = w.reporterMS.SelectReporter(w.ctx, &reportertypes.MsgSelectReporter{SelectorAddress: w.accts[a].String(), ReporterAddress: w.accts[rep].String()})
+	}
+	if r.Intn(2) == 0 {
+		_, _ = w.mintMS.Init(w.ctx, &minttypes.MsgInit{Authority: w.authority})
+		w.mintInitialized = true
+	}
+	init := w.snap()
+	for b := 0; b < blocks && w.halted == ""; b++ {
+		res := w.beginBlock(time.Duration(1+r.Intn(5000)) * time.Millisecond)
+		steps = append(steps, coqStep(res, w.snap(), nil))
+		stats[fmt.Sprintf("%s/%d", res.name, res.result)]++
+		if w.halted != "" {
+			break
+		}
+		// tips
+		var tipped [][]byte
+		for k := r.Intn(3); k > 0; k-- {
+			a := nVals + r.Intn(3)
+			qd := w.currentCycleQuery()
+			if r.Intn(2) == 0 {
+				qd = pick(r, w.queries...)
+			}
+			amt := pick(r, bi(100), bi(101), bi(1000), bi(3), bi(7), bi(1_000_001), bi(50), bi(int64(1+r.Intn(5_000_000))))
+			tipped = append(tipped, qd)
+			do("Tip", a, []*big.Int{amt}, func(ctx sdk.Context) error {
+				_, err := w.oracleMS.Tip(ctx, &oracletypes.MsgTip{Tipper: w.accts[a].String(), QueryData: qd, Amount: w.coin(amt)})
+				return err
+			})
+		}
+		// reports: all (or all but one) reporters on the cycle query and on the tipped queries
+		qs := append([][]byte{w.currentCycleQuery()}, tipped...)
+		for _, qd := range qs {
+			skip := -1
+			if r.Intn(4) == 0 {
+				skip = r.Intn(nVals)
+			}
+			val := w.randValue()
+			for i := 0; i < nVals; i++ {
+				if i == skip {
+					continue
+				}
+				i, qd := i, qd
+				v := val
+				if r.Intn(3) == 0 {
+					v = w.randValue()
+				}
+				do("SubmitValue", i, nil, func(ctx sdk.Context) error {
+					_, err := w.oracleMS.SubmitValue(ctx, &oracletypes.MsgSubmitValue{Creator: w.accts[i].String(), QueryData: qd, Value: v})
+					return err
+				})
+			}
+		}
+		// withdrawals of credited tips
+		if r.Intn(3) == 0 {
+			for _, a := range r.Perm(nVals + 3) {
+				if r.Intn(2) == 0 {
+					continue
+				}
+				a := a
+				v := w.valOps[r.Intn(nVals)]
+				do("WithdrawTip", a, nil, func(ctx sdk.Context) error {
+					_, err := w.reporterMS.WithdrawTip(ctx, &reportertypes.MsgWithdrawTip{SelectorAddress: w.accts[a].String(), ValidatorAddress: v.String()})
+					return err
+				})
+			}
+		}
+		res = w.endBlock()
+		steps = append(steps, coqStep(res, w.snap(), nil))
+		stats[fmt.Sprintf("%s/%d", res.name, res.result)]++
+	}
+	// finally everybody withdraws: no entitled withdrawal may fail for lack of funds
+	if w.halted == "" {
+		w.beginBlock(time.Second)
+		for a := 0; a < nVals+3; a++ {
+			a := a
+			res := do("WithdrawTip", a, nil, func(ctx sdk.Context) error {
+				_, err := w.reporterMS.WithdrawTip(ctx, &reportertypes.MsgWithdrawTip{SelectorAddress: w.accts[a].String(), ValidatorAddress: w.valOps[a%nVals].String()})
+				return err
+			})
+			if res.result != 0 && strings.Contains(res.errMsg, "insufficient") {
+				stats["WithdrawTip/insufficient"]++
+			}
+		}
+		res := w.endBlock()
+		steps = append(steps, coqStep(res, w.snap(), nil))
+	}
+	return fmt.Sprintf("Hist %s %s", init.coq(), clist(steps)), stats, w.halted
+}
+
+func TestHistPayouts(t *testing.T) {
+	out := newOut(t, "hist_payouts")
+	defer out.Close()
+	n := count(40, 1000)
+	base := seed()*7_000_003 + 17
+	for i := 0; i < n; i++ {
+		hs := base + int64(i)
+		term, stats, halted := runPayoutHistory(t, hs, 10)
+		kind := "completed"
+		if halted != "" {
+			kind = "halted"
+		}
+		if stats["WithdrawTip/insufficient"] > 0 {
+			kind = "withdraw-insufficient"
+		}
+		out.Emit(Case{Coq: term, Kind: kind, Nontrivial: stats["SubmitValue/0"] >= 6 && stats["Tip/0"] >= 2, Key: fmt.Sprint(hs),
+			Human: map[string]interface{}{"history_seed": hs, "ops": stats, "halted": halted}})
 	}
 }
